@@ -56,6 +56,8 @@ def base_cmd(target_dir, features, harness):
     cmd = ["cargo", "kani", "-Z", "stubbing", "-Z", "unstable-options", "--target-dir", target_dir]
     if features is not None:
         cmd += ["--no-default-features", "--features", ",".join(features)]
+        if "async-io" in features:
+            cmd += ["-Z", "async-lib"]
     cmd += ["--harness", harness, "--exact"]
     return cmd
 
